@@ -61,6 +61,34 @@ def math_sqrt(E, args, kwargs, node):
     return VR(f(x))
 
 
+def _urllib(fname):
+    def f(E, args, kwargs, node):
+        _assumed(E, 'urllib.parse.%s: a function of its argument (uninterpreted); unquote(quote(x)) == x and '
+                    'unquote_plus(quote_plus(x)) == x are used as axioms where stated' % fname)
+        x = args[0]
+        if ops.known_type(E, x) != 'str':
+            raise Unsupported('urllib.parse.%s of a non-str value' % fname)
+        g = z3.Function('urllib.' + fname, z3.StringSort(), z3.StringSort())
+        return VS(g(E.as_z3_str(x)))
+    return f
+
+
+TAINTED = 'AccessControl.tainted.TaintedString'
+
+
+def tainted_string(E, args, kwargs, node):
+    """TaintedString(value): a wrapper object marking untrusted text (library class, assumed contract: isinstance holds,
+    str(t) is the raw value, t.quoted() is the HTML-escaped value)"""
+    from .builtins_ import isa_term
+    r = E.fresh_opaque('tainted')
+    E.tfacts[(r.name, TAINTED)] = True
+    E.assume(isa_term(E, r, TAINTED))
+    E.ghost.setdefault('taint_wrap', {})[r.name] = args[0] if args else None
+    E.trace.append(('taint-wrap', r, args[0] if args else None))
+    _assumed(E, 'AccessControl TaintedString(v) is an instance of TaintedString wrapping v')
+    return r
+
+
 def itemgetter(E, args, kwargs, node):
     return E.alloc(HObj(None, {'k': args[0]}, name='itemgetter'))
 
@@ -146,6 +174,11 @@ def roman_to_roman(E, args, kwargs, node):
 
 
 TABLE = {
+    'urllib.parse.quote': _urllib('quote'),
+    'urllib.parse.quote_plus': _urllib('quote_plus'),
+    'urllib.parse.unquote': _urllib('unquote'),
+    'urllib.parse.unquote_plus': _urllib('unquote_plus'),
+    'AccessControl.tainted.TaintedString': tainted_string,
     'math.sqrt': math_sqrt,
     'operator.itemgetter': itemgetter,
     'functools.cmp_to_key': cmp_to_key,
